@@ -184,8 +184,8 @@ def header_reader(repo: Repo, chk: Check) -> None:
             chk.ob("O2", Site.of(f, construct="identifier octet"), False, "the identifier octet is not read from offset 0")
             continue
         r1 = Lin.atom(("read", ints[0].rid))
-        high = any("== 31" in c.desc and pol and "bitand" in c.desc for c, pol in p.conds)
-        long_form = any(c.desc.startswith("(bitand") and "128) != 0" in c.desc and pol for c, pol in p.conds)
+        high = any("== 31" in c.desc and pol and "bitand" in c.desc for c, pol in _implied(p.conds))
+        long_form = any(c.desc.startswith("(bitand") and "128) != 0" in c.desc and pol for c, pol in _implied(p.conds))
         n += 1
         res = p.result
         tag = res.fields.get("tag") if hasattr(res, "fields") else None
@@ -237,7 +237,7 @@ def header_reader(repo: Repo, chk: Check) -> None:
         if len(ints) < 2:
             continue
         lenval = Lin.atom(("read", ints[1].rid))
-        rej = any(c.info.get("cmp") is not None and c.info["cmp"][0] in ("eq", "ne") and {repr(c.info["cmp"][1]), repr(c.info["cmp"][2])} == {repr(lenval), "128"} and pol is (c.info["cmp"][0] == "ne") for c, pol in p.conds)
+        rej = any(c.info.get("cmp") is not None and c.info["cmp"][0] in ("eq", "ne") and {repr(c.info["cmp"][1]), repr(c.info["cmp"][2])} == {repr(lenval), "128"} and pol is (c.info["cmp"][0] == "ne") for c, pol in _implied(p.conds))
         chk.ob("O2", Site.of(f, construct="indefinite length rejected"), rej, "a returning path always has length octet != 0x80" if rej else "the indefinite length form (0x80) is not rejected on a returning path")
         res = p.result
         tag = res.fields.get("tag") if hasattr(res, "fields") else None
@@ -318,7 +318,7 @@ def header_writer(repo: Repo, chk: Check) -> None:
     for p in paths:
         facts: t.Dict[str, bool] = {}
         thresholds = {}
-        for c, pol in p.conds:
+        for c, pol in _implied(p.conds):
             cmp_ = c.info.get("cmp")
             if cmp_ and cmp_[1] == num and cmp_[2].is_const():
                 facts["low"] = pol if cmp_[0] == "lt" else (not pol if cmp_[0] == "ge" else None)  # type: ignore[assignment]
@@ -538,3 +538,9 @@ def nested_writers(repo: Repo, chk: Check) -> None:
     en = cls.methods["__enter__"]
     oken = any(isinstance(n, ast.Return) and unparse(n.value) == "self" for n in body_nodes(en.node))
     chk.ob("O5", Site.of(en, construct="__enter__ returns self"), oken, "with-statement binds the child writer")
+
+
+def _implied(conds: t.Any) -> t.Any:
+    from .c11 import implied
+
+    return implied(conds)
